@@ -122,6 +122,35 @@ class FunctionUnit(Unit):
         return list(eng.axioms), uniq, info
 
 
+class FilteredUnit(Unit):
+    """another property's unit with only the obligations that matter here (a check must not report a violation of ITS
+    property for a change that only breaks the other one)"""
+
+    def __init__(self, unit, keep):
+        self.unit = unit
+        self.keep = keep
+        self.label = unit.label
+
+    @property
+    def engine(self):
+        return getattr(self.unit, "engine", None)
+
+    @property
+    def extracted(self):
+        return getattr(self.unit, "extracted", None)
+
+    @property
+    def contract(self):
+        return getattr(self.unit, "contract", None)
+
+    def generate(self):
+        ax, obs, info = self.unit.generate()
+        kept = [o for o in obs if self.keep(o.name)]
+        info = dict(info)
+        info["obligations_not_relevant_to_this_property"] = len(obs) - len(kept)
+        return ax, kept, info
+
+
 class LemmaUnit(Unit):
     """Spec-level lemmas: named closed formulas to be proved valid."""
 
